@@ -267,7 +267,10 @@ def decodeField (env : Env) (dec : Dec) (f : Field) (tags : List Tag) : Except E
       | _ => .error .missingRequired
   | t :: rest =>
     if t.cls = .closing then
-      if f.opt then .ok (none, tags) else .error .missingRequired
+      if f.opt then .ok (none, tags)
+      else match kindOf env f.ref, f.ctx with
+        | .seqOf _, none | .listOf _, none => .ok (some (.list []), tags)   -- fix C03-empty-list-before-closing-tag
+        | _, _ => .error .missingRequired
     else
     match kindOf env f.ref with
     | .seqOf i =>
